@@ -12,6 +12,7 @@ from .types import (
     SV,
     TBool,
     TInt,
+    TList,
     TMap,
     TOpt,
     TRec,
@@ -25,6 +26,14 @@ from .types import (
 )
 
 MAX_DEPTH = 12
+TRANSPARENT_CLASSES = {"dvc_data.hashfile._progress:QueryingProgress"}
+
+
+class CtxMgrNone:
+    """progress object used only as a context manager / callback holder"""
+
+    suppress = None
+
 # platform constants (POSIX; the Windows branches are not taken -- stated assumption)
 EXTERN_CONSTS = {"os.name": "posix", "os.sep": "/", "posixpath.sep": "/", "os.path.sep": "/"}
 
@@ -453,6 +462,9 @@ class CallMixin:
     def construct(self, cv: ClassVal, args, kwargs, node):
         ty = cv.ty
         cdef = cv.cdef
+        if cdef.qualname in TRANSPARENT_CLASSES:
+            self.res.drops.add(f"{cdef.name}(it, ...) treated as the identity on the wrapped iterable (progress plumbing)")
+            return args[0] if args else CtxMgrNone()
         if ty is None:
             if any("Exception" in b or "Error" in b for b in cdef.bases):
                 raise Unsupported("exception object used as a value")
@@ -593,6 +605,17 @@ class CallMixin:
             return s
         if isinstance(v, SDict) and not v.items and isinstance(t, TMap):
             return t.empty()
+        if isinstance(v, (tuple, list)) and isinstance(t, TList):
+            from . import specfn
+
+            acc = t.empty()
+            self.st.pc.append(specfn.list_elems(acc).t == z3.EmptySet(t.elem.sort()))
+            for x in v:
+                xe = self._elem(x, t.elem)
+                new = t.append(acc, xe)
+                self.st.pc.append(specfn.list_elems(new).t == z3.SetAdd(specfn.list_elems(acc).t, xe.t))
+                acc = new
+            return acc
         if isinstance(v, SV):
             if isinstance(v.ty, TOpt) and not isinstance(t, TOpt) and v.ty.elem == t:
                 self.oblige("attr", v.ty.is_some(v), self.cur_node, "None where a value is required")
